@@ -13,7 +13,7 @@ import (
 	"verifharness/internal/srv"
 )
 
-func init() { registry["C12"] = runC12 }
+func main() { hx.Main("C12", runC12) }
 
 var globAlphabet = []string{"a", "b", "c", "a", "b", "*", "?", "[", "]", "\\", "-", "^", "\x00", "\xff", "é", "z"}
 var nameAlphabet = []string{"a", "b", "c", "a", "b", "c", "*", "?", "[", "\\", "\x00", "\xff", "é", "z", "]", "-"}
@@ -74,7 +74,7 @@ func inLimits(l0, l1 string, desc bool, s string) bool {
 	return l0 <= s && s < l1
 }
 
-func runC12(r *hx.Result, cfg Config) {
+func runC12(r *hx.Result, cfg hx.Config) {
 	r.Rule = "in-package: (pattern, name) pairs from a 16-symbol alphabet incl. * ? [ ] \\ - ^ 0x00 0xff and a 2-byte rune, half of the names derived from the pattern so that they match; non-trivial = distinct pair on which Match returned true with a pattern containing a metacharacter or an escape. black-box: KEYS/SCAN/SEARCH/PDEL/HOOKS with MATCH patterns against client-side filtering of the unfiltered listing; non-trivial = distinct (dataset, query) whose result is a non-empty strict subset."
 	r.Assumptions = []string{"string order of the model is Go's byte-wise string order", "black-box listing without MATCH is the ground truth for filtering"}
 	rng := rand.New(rand.NewSource(cfg.Seed))
@@ -166,7 +166,7 @@ func clientFilter(names []string, pattern string) []string {
 	return out
 }
 
-func c12BlackBox(r *hx.Result, cfg Config, rng *rand.Rand) {
+func c12BlackBox(r *hx.Result, cfg hx.Config, rng *rand.Rand) {
 	rounds := 4
 	queries := 60
 	if cfg.Tier == "thorough" || cfg.Search {
